@@ -123,7 +123,7 @@ def run_one(name, keyalg):
 
 
 # ------------------------------------------------------------------ method matrix: what the server offers x what the client holds
-KBD_MODES = [None, 'pw-prompt', 'code-prompt', 'two-prompts', 'no-echo-pw-prompt']
+KBD_MODES = [None, 'pw-prompt', 'code-prompt', 'two-prompts', 'no-echo-pw-prompt', 'pw-then-empty-round']
 
 
 def matrix_cases():
@@ -137,11 +137,14 @@ def matrix_cases():
                     for cli_keys in ('none', 'good', 'wrong', 'wrong+good'):
                         for order in (None, 'password,keyboard-interactive,publickey', 'keyboard-interactive,password,publickey'):
                             out.append((kbd, srv_pw, srv_pk, cli_pw, cli_keys, order))
+                            # the same with a client that refuses logins in which it proved nothing (disable_trivial_auth)
+                            out.append((kbd, srv_pw, srv_pk, cli_pw, cli_keys, order, True))
     return out
 
 
 def matrix_run(case):
-    kbd, srv_pw, srv_pk, cli_pw, cli_keys, order = case
+    kbd, srv_pw, srv_pk, cli_pw, cli_keys, order = case[:6]
+    dta = len(case) > 6 and case[6]
     good, wrong = P.key('user-ssh-ed25519', 'ssh-ed25519'), P.key('user-wrong', 'ssh-ed25519')
     log = []
 
@@ -159,13 +162,20 @@ def matrix_run(case):
         def get_kbdint_challenge(self, username, lang, submethods):
             log.append('kbdint-challenge')
             prompts = {'pw-prompt': [('Password:', False)], 'no-echo-pw-prompt': [('Enter your password: ', False)],
-                       'code-prompt': [('Verification code:', True)], 'two-prompts': [('Password:', False), ('Token:', True)]}[kbd]
+                       'code-prompt': [('Verification code:', True)], 'two-prompts': [('Password:', False), ('Token:', True)],
+                       'pw-then-empty-round': [('Password:', False)]}[kbd]
             return '', '', '', prompts
 
         def validate_kbdint_response(self, username, responses):
             log.append('kbdint-response')
             if kbd in ('pw-prompt', 'no-echo-pw-prompt'):
                 return list(responses) == ['pw']
+            if kbd == 'pw-then-empty-round':
+                # PAM style: the accepted answer is followed by one more round that asks nothing (a message only)
+                if list(responses) == ['pw'] and not getattr(self, '_round2', False):
+                    self._round2 = True
+                    return 'Last login: yesterday', '', '', []
+                return getattr(self, '_round2', False) and list(responses) == []
             return False
 
         def public_key_auth_supported(self):
@@ -183,6 +193,8 @@ def matrix_run(case):
             sopts['authorized_client_keys'] = asyncssh.import_authorized_keys(good.export_public_key('openssh').decode())
         keys = {'none': None, 'good': [good], 'wrong': [wrong], 'wrong+good': [wrong, good]}[cli_keys]
         copts = dict(password='pw' if cli_pw else None, client_keys=keys)
+        if dta:
+            copts['disable_trivial_auth'] = True
         # order None: the library's own default order (the harness default is password only)
         copts['preferred_auth'] = order or 'publickey,keyboard-interactive,password'
         pair = P.Pair(loop, sopts=sopts, copts=copts, env=env)
@@ -201,8 +213,8 @@ def matrix_run(case):
 def matrix_worker(job):
     acc = core.Acc()
     for case in job:
-        kbd, srv_pw, srv_pk, cli_pw, cli_keys, order = case
-        want = (srv_pk and 'good' in cli_keys) or (srv_pw and cli_pw) or (kbd in ('pw-prompt', 'no-echo-pw-prompt') and cli_pw)
+        kbd, srv_pw, srv_pk, cli_pw, cli_keys, order = case[:6]
+        want = (srv_pk and 'good' in cli_keys) or (srv_pw and cli_pw) or (kbd in ('pw-prompt', 'no-echo-pw-prompt', 'pw-then-empty-round') and cli_pw)
         try:
             ok, detail, log, exc = matrix_run(case)
         except Exception as e:              # pylint: disable=broad-except
